@@ -210,6 +210,34 @@ def check(ctx: Ctx) -> None:
     check_input_immutability(ctx, 'C01.g', public_api(ctx.model, [FUND], include={'modulate', 'demodulate', 'setConstellation'}), floor=3)
     from ..idioms import check_narrow_index_ranges
     check_narrow_index_ranges(ctx, 'C01.i', [FUND, 'pyphysim/util/conversion.py'], floor=3)
+    # ------------------------------------------------------------------ C01.k
+    ctx.rule('C01.k', 'a detector that broadcasts the symbol table against the samples (table[:, newaxis] - samples) does so on a FLATTENED '
+                      'sample vector: against an input of two or more dimensions the table column pairs up with the rows of the input', floor=1)
+    for cls in ctx.model.module(FUND).classes.values():
+        dfn = cls.methods.get('demodulate')
+        if dfn is None:
+            continue
+        ctx.instance('C01.k', dfn.qualname)
+        par_ = [p_ for p_ in dfn.params if p_ not in ('self', 'cls')][:1]
+        flat_locals = {n_.targets[0].id for n_ in walk_no_nested(dfn.node) if isinstance(n_, ast.Assign) and len(n_.targets) == 1
+                       and isinstance(n_.targets[0], ast.Name) and isinstance(n_.value, ast.Call) and isinstance(n_.value.func, ast.Attribute)
+                       and (n_.value.func.attr in ('flatten', 'ravel') or (n_.value.func.attr == 'reshape' and n_.value.args
+                            and isinstance(n_.value.args[0], ast.UnaryOp) and norm(n_.value.args[0]) == '-1'))}
+        hits_ = []
+        for n_ in walk_no_nested(dfn.node):
+            if isinstance(n_, ast.BinOp) and isinstance(n_.op, ast.Sub):
+                for a_, b_ in ((n_.left, n_.right), (n_.right, n_.left)):
+                    if isinstance(a_, ast.Subscript) and isinstance(a_.slice, ast.Tuple) and any(
+                            (isinstance(i_, ast.Constant) and i_.value is None) or norm(i_) in ('np.newaxis', 'numpy.newaxis') for i_ in a_.slice.elts) \
+                            and is_self_attr(a_.value, dfn.self_name or 'self') == 'symbols':
+                        if isinstance(b_, ast.Name) and b_.id in par_ and b_.id not in flat_locals:
+                            hits_.append(n_)
+        ctx.obligation('C01.k', dfn.qualname, not hits_, {'flattened_locals': sorted(flat_locals), 'broadcasts_against_raw_input': [norm(h_)[:60] for h_ in hits_]},
+                       nontrivial=any(isinstance(x_, ast.Subscript) and is_self_attr(x_.value, dfn.self_name or 'self') == 'symbols' for x_ in ast.walk(dfn.node)))
+        for h_ in hits_[:1]:
+            ctx.violation('C01.k', dfn.qualname, '`%s` broadcasts the (M, 1) symbol column against the input as it came: for an input with two or '
+                          'more dimensions the decisions are wrong or of the wrong shape (an (M, N) input is compared row by row with the table)'
+                          % norm(h_)[:60], dfn.path, h_.lineno, operand='unflattened-broadcast')
     # ------------------------------------------------------------------ C01.j
     from ..idioms import unsigned_wraps
     ctx.rule('C01.j', 'modulate never subtracts from / negates a value built from the raw index array by integer arithmetic only: indexes and '
